@@ -16,21 +16,33 @@ NoIn == <<>>
 In012 == <<[qos |-> 1, tag |-> 501], [qos |-> 2, tag |-> 502], [qos |-> 0, tag |-> 503]>>
 In22 == <<[qos |-> 2, tag |-> 501], [qos |-> 2, tag |-> 502]>>
 ScriptNone == ("w1" :> <<>>)
+NoGen2 == [x \in {} |-> <<>>]
+Gen2None == ("v2" :> <<>>)
+Gen2Q1 == ("v2" :> <<P1(101)>>)
+Gen2Q2 == ("v2" :> <<P2(101)>>)
+ScriptQ12 == ("w1" :> <<P1(1), P2(2)>>)
 ScriptOne == ("w1" :> <<P1(1)>>)
 ScriptQ2  == ("w1" :> <<P2(1)>>)
 ScriptTwo == ("w1" :> <<P1(1), P2(2)>>) @@ ("w2" :> <<P1(3)>>)
 ScriptClose == ("w1" :> <<P1(1)>>) @@ ("c1" :> <<CloseOp>>)
 ScriptReq == ("w1" :> <<P0(1), PingOp>>) @@ ("w2" :> <<SubOp>>)
 ScriptPings == ("w1" :> <<PingOp>>) @@ ("w2" :> <<PingOp, P0(2)>>)
+ScriptPings2 == ("w1" :> <<PingOp>>) @@ ("w2" :> <<SubOp, PingOp>>)
 ScriptReqClose == ("w1" :> <<PingOp>>) @@ ("w2" :> <<SubOp>>) @@ ("c1" :> <<CloseOp>>)
 ScriptMixReq == ("w1" :> <<P1(1)>>) @@ ("w2" :> <<P0(2), SubOp>>)
 ScriptF4 == ("w1" :> <<P2(1)>>) @@ ("w2" :> <<P0(2)>>)
 ScriptMix == ("w1" :> <<P1(1), P2(2)>>) @@ ("w2" :> <<P2(3)>>) @@ ("c1" :> <<CloseOp>>)
 
 ASSUME PrintT(<<"SCRIPT", ToJson(Script)>>)
+ASSUME PrintT(<<"SCRIPT2", ToJson(Script2)>>)
 Terminal == \A p \in Procs : MovesOf(st, p) = {}
 \* one behaviour per transition of the bounded model (or a seeded sample of them)
 ExportStep ==
   (hist' # hist /\ (SampleK = 1 \/ RandomElement(1..SampleK) = 1)) =>
      PrintT(<<"CASE", ToJson([steps |-> hist'])>>)
+\* behaviours that reach a state the design forbids (used with the DEV_ switches: the specification regenerates a
+\* finding, the behaviour is replayed on the real code, the monitor decides)
+Detectors(s) == (IF s.strayPong THEN {"C11_PongIsOwn"} ELSE {})
+ExportBad == (RecordHist /\ Detectors(st') # {} /\ Detectors(st) = {}) =>
+     PrintT(<<"BAD", ToJson([inv |-> Detectors(st'), steps |-> hist'])>>)
 =============================================================================
